@@ -31,6 +31,29 @@ func evalWith(text string, dm map[string]interface{}) (interface{}, error) {
 	return t.Root, nil
 }
 
+// midnightGap: when t is not local midnight of the normalised civil date (y, m, d), the two instants one millisecond
+// apart between which the local clock jumps over that midnight (an empty list when there is no such jump).
+func midnightGap(t time.Time, y, m, d int64) []any {
+	want := time.Date(int(y), time.Month(m), int(d), 0, 0, 0, 0, time.UTC)
+	if t.Year() == want.Year() && t.YearDay() == want.YearDay() && t.Hour() == 0 && t.Minute() == 0 && t.Second() == 0 {
+		return []any{}
+	}
+	civil := func(x time.Time) time.Time {
+		return time.Date(x.Year(), x.Month(), x.Day(), x.Hour(), x.Minute(), x.Second(), x.Nanosecond(), time.UTC)
+	}
+	start, end := t.ZoneBounds()
+	for _, b := range []time.Time{start, end} {
+		if b.IsZero() {
+			continue
+		}
+		p, q := b.Add(-time.Millisecond), b
+		if civil(p).Before(want) && civil(q).After(want) {
+			return []any{proj.TimeValue(p), proj.TimeValue(q)}
+		}
+	}
+	return []any{}
+}
+
 func intDigits(v interface{}) []any {
 	d, ok := v.(*decimal.Big)
 	if !ok {
@@ -87,7 +110,7 @@ func recordTime(args []string) int {
 		if !ok {
 			return nil, time.Time{}, fmt.Errorf("date returned %T", v)
 		}
-		return mk("date", map[string]any{"y": y, "m": m, "d": d, "res": proj.TimeValue(t), "args": []any{y, m, d}}), t, nil
+		return mk("date", map[string]any{"y": y, "m": m, "d": d, "res": proj.TimeValue(t), "gap": midnightGap(t, y, m, d), "args": []any{y, m, d}}), t, nil
 	}
 	fieldsEv := func(t time.Time) (map[string]any, error) {
 		dm := map[string]interface{}{"t": t}
